@@ -39,6 +39,9 @@ type scenario struct {
 	R ruleSpec
 	// OnError, if not nil, is the rule's error pipeline as written (instead of the one derived from R.EH)
 	OnError []config.MechanismConfig
+	// DeeperFirst: a rule for a path below that of the rule under test is loaded before it (the place of the rule in the
+	// lookup structure exists already when the rule and its backtracking setting arrive)
+	DeeperFirst bool
 }
 
 func (s scenario) String() string {
@@ -47,8 +50,8 @@ func (s scenario) String() string {
 		bt = fmt.Sprint(*s.R.BT)
 	}
 
-	return fmt.Sprintf("default{present=%v %v bt=%v} rule{%v bt=%s proxy=%v forward_to=%v}",
-		s.D.Present, s.D.stages, s.D.BT, s.R.stages, bt, s.R.Proxy, s.R.ForwardTo)
+	return fmt.Sprintf("default{present=%v %v bt=%v} rule{%v bt=%s proxy=%v forward_to=%v} deeper rule loaded first=%v",
+		s.D.Present, s.D.stages, s.D.BT, s.R.stages, bt, s.R.Proxy, s.R.ForwardTo, s.DeeperFirst)
 }
 
 func ids(prefix string, n int) []string {
@@ -169,6 +172,19 @@ func build(s scenario, failing bool, extra []config.MechanismConfig) (*vkit.Worl
 
 	if s.R.ForwardTo {
 		r.Backend = &rulecfg.Backend{Host: "127.0.0.1:1"}
+	}
+
+	if s.DeeperFirst {
+		deeper := rulecfg.Rule{
+			ID:      "deeper",
+			Matcher: rulecfg.Matcher{Routes: []rulecfg.Route{{Path: "/bt/a/deeper"}}},
+			Execute: []config.MechanismConfig{{"authenticator": "c_a1"}},
+			Backend: &rulecfg.Backend{Host: "127.0.0.1:1"},
+		}
+
+		if err = w.Load("deeper", deeper); err != nil {
+			return nil, fmt.Errorf("harness: deeper rule rejected: %w", err), nil
+		}
 	}
 
 	loadErr := w.Load("under-test", r)
@@ -411,6 +427,14 @@ func TestStagewiseInheritanceExhaustive(t *testing.T) {
 					n++
 
 					checkScenario(scenario{D: d, R: r}, fail, exclBT)
+
+					if failed {
+						return
+					}
+
+					n++
+
+					checkScenario(scenario{D: d, R: r, DeeperFirst: true}, fail, exclBT)
 
 					if failed {
 						return
